@@ -21,11 +21,29 @@ def gen_corr(rng, tier):
     return out
 
 
+def gen_complete_wide(rng, tier):
+    out = []
+    for _ in range(c05.n_programs(tier, quick=100)):
+        ws = c05.gen_wide_workspace(rng, unique=True)
+        out.append(c05.make_case([(fn, text) for fn, text, _ in ws], c05.prefix_steps(ws)))
+    return out
+
+
+def gen_corr_wide(rng, tier):
+    out = []
+    for _ in range(c05.n_programs(tier, quick=60)):
+        ws = c05.gen_wide_workspace(rng)
+        out.append(c05.make_case([(fn, text) for fn, text, _ in ws], c05.prefix_steps(ws)))
+    return out
+
+
 LEGS = [
     Leg("c14.complete", gen_complete, nontrivial=c05.nontrivial, describe=c05.describe, per_case_s=1.5,
         skip_model=c05.skip_model),
     Leg("c14.corr", gen_corr, nontrivial=c05.nontrivial, describe=c05.describe, per_case_s=1.5,
         skip_model=c05.skip_model),
+    c05.wide_leg("c14.wide", "c14.complete", gen_complete_wide),
+    c05.wide_leg("c14.widecorr", "c14.corr", gen_corr_wide),
 ]
 
 
